@@ -9,8 +9,46 @@ from fractions import Fraction
 import numpy as np
 import scipy.sparse as sp
 
-from toqito import matrices as M
-from toqito import states as S
+from toqito import matrices as _M
+from toqito import states as _S
+
+
+class _FreshProxy:
+    """toqito.matrices / toqito.states with one extra assertion on every constructor call: the returned dense array is a
+    fresh object -- after scribbling over it, the same call returns the same values again (catches memoised or module-level
+    arrays handed out by reference).  Results and exceptions are passed through unchanged."""
+
+    hook = None  # set by run(): callable(fn_name, args_repr) reporting a violation
+
+    def __init__(self, mod):
+        self._mod = mod
+
+    def __getattr__(self, name):
+        f = getattr(self._mod, name)
+        if not callable(f):
+            return f
+
+        def wrapped(*a, **k):
+            out = f(*a, **k)
+            if isinstance(out, np.ndarray) and out.flags.writeable and out.size and _FreshProxy.hook is not None:
+                keep = out.copy()
+                same = True
+                try:
+                    out[...] = 7
+                    again = f(*a, **k)
+                    same = isinstance(again, np.ndarray) and again.shape == keep.shape and np.array_equal(again, keep)
+                except Exception:  # noqa: BLE001 -- a second identical call that raises is also a difference
+                    same = False
+                finally:
+                    out[...] = keep
+                if not same:
+                    _FreshProxy.hook(name, repr((a, k))[:200])
+            return out
+        return wrapped
+
+
+M = _FreshProxy(_M)
+S = _FreshProxy(_S)
 
 from ..exact import Pure, call, case_rng, describe, present_nd
 
@@ -192,7 +230,27 @@ class K:
         guard = Pure(*a, **k)
         out = call(f, *a, kinds=(), **k)
         self.check_pure(guard, getattr(f, "__name__", str(f)), a)
+        self.check_fresh(f, out, a, k)
         return out
+
+    def check_fresh(self, f, out, a, k):
+        """a constructor returns a fresh object on every call: scribbling over a returned dense array must not change what
+        the next call (or a constructor built on it) returns -- catches memoised / module-level arrays handed out by reference"""
+        if out[0] != "ok" or not isinstance(out[1], np.ndarray) or not out[1].flags.writeable or out[1].size == 0:
+            return
+        fn = getattr(f, "__name__", str(f))
+        self.ctx.count("fresh-object-check")
+        keep = out[1].copy()
+        same = False
+        try:
+            out[1][...] = 7
+            again = call(f, *a, kinds=(), **k)
+            same = again[0] == "ok" and isinstance(again[1], np.ndarray) and again[1].shape == keep.shape and np.array_equal(again[1], keep)
+        finally:
+            out[1][...] = keep
+        if not same:
+            self.ctx.violation(f"{fn}: a second call returns a different object after the first result was modified in place (results are shared / cached)",
+                               {"function": fn, "args": describe(list(a)), "kind": "shared-result"})
 
     def check_pure(self, guard, fn, a):
         """purity assertion on the (list / ndarray) arguments of a constructor call"""
@@ -1025,8 +1083,21 @@ SECTIONS = [check_clock_shift_fourier, check_gen_pauli, check_pauli, check_gell_
 
 def run(ctx, model_ok=True):
     k = K(ctx)
-    for sec in SECTIONS:
-        sec(k)
+    reported = set()
+
+    def shared(fn, args):
+        ctx.count("fresh-object-violations")
+        if fn not in reported:
+            reported.add(fn)
+            ctx.violation(f"{fn}: a second identical call returns different values after the first result was modified in place "
+                          "(the returned array is shared / cached between calls)", {"function": fn, "args": args, "kind": "shared-result"})
+
+    _FreshProxy.hook = shared
+    try:
+        for sec in SECTIONS:
+            sec(k)
+    finally:
+        _FreshProxy.hook = None
     ctx.extra["exhaustive_small_space"] = ("all index pairs of gen_pauli / gen_gell_mann / gen_bell for d = 2..5, all Pauli strings of length <= "
                                            + ("2" if k.quick else "3") + ", all (n, k) of dicke for n <= 5, all (d, n) of ghz for d, n <= 5, hadamard n = 0..5")
 
